@@ -207,7 +207,18 @@ def run(chk):
                 if (req["up"] is None and rep["presence"] is not True) or (req["uv"] is None and not (rep["verification"] is True and enabled is True)):
                     problems.append("Ok row that does not test the requested options: " + desc)
                 exp = sorted(([] if not rep["presence"] else ["UP"]) + ([] if not rep["verification"] else ["UV"]))
-                if rep["presence"] is None or rep["verification"] is None:
+                fc = flow.flag_conditions(val) if fs is None else None
+                if fc is not None and uvm_term is not None:
+                    # `flags.set(UP, result.presence)`: the bit is the reported value itself, whatever it is
+                    bad_fc = [k for k in fc if k not in ("UP", "UV")]
+                    for nm_, fld_ in (("UP", "presence"), ("UV", "verification")):
+                        m_ = fc.get(nm_, False)
+                        reported = isinstance(m_, tuple) and len(m_) == 3 and m_[0] == "field" and m_[2] == fld_ and flow.is_payload_of(m_[1], lambda x: x == uvm_term)
+                        if not (reported or (m_ is True and rep[fld_] is True) or (m_ is False and rep[fld_] is False)):
+                            bad_fc.append(nm_)
+                    if bad_fc:
+                        problems.append("flags %s do not equal reported presence/verification: %s" % ({k: (v if v is True else flow.term_str(v)[:60]) for k, v in fc.items()}, desc))
+                elif rep["presence"] is None or rep["verification"] is None:
                     problems.append("Ok row whose flags are not conditioned on both reported results: " + desc)
                 elif upn != exp or fs is None:
                     problems.append("flags %s (base %s) do not equal reported presence/verification %s: %s" % (upn, flow.term_str(base), exp, desc))
